@@ -260,6 +260,11 @@ export const REWRITES = {
         n++;
         return { ...x, props: x.props.map((pp) => (rng.chance(0.5) ? { ...pp, doc: pp.doc ? undefined : doc() } : pp)) };
       }
+      // a comment directly before a member of a union (`| /** doc */ { kind: "a" }`)
+      if (x.k === "union" && x.ts.length >= 2 && rng.chance(0.35)) {
+        n++;
+        return { ...x, ts: x.ts.map((m) => (rng.chance(0.5) ? { ...m, mdoc: m.mdoc ? undefined : doc() } : m)) };
+      }
       return x;
     });
     return n ? q : null;
